@@ -177,6 +177,39 @@ def run(chk, ctx):
                     t.args[1] == (E.P,)
                 chk.ob('C15.S', 'encode.timestamp path %d' % (i + 1), okk,
                        'struct_time converted by %s' % t.args[0], site=site)
+            # the number written is the conversion result itself: nothing
+            # else computed from the value (an offset field, a second
+            # conversion) is mixed into it
+            convs = ts_calls + [c for c in tg_calls
+                                if c.args[0] == 'calendar.timegm']
+
+            def leaves(x):
+                while isinstance(x, Sym) and x.op in ('int', 'typed') \
+                        and x.args:
+                    x = x.args[0]
+                if isinstance(x, Sym) and x.op == 'cond':
+                    return leaves(x.args[1]) + leaves(x.args[2])
+                return [x]
+            if convs:
+                lv = leaves(arg)
+                cons_ = 'encode.timestamp path %d operand' % (i + 1)
+                if all(any(x is t for t in convs) for x in lv):
+                    chk.ob('C15.S', cons_, True, 'the field holds the '
+                           'conversion result itself', site=site)
+                else:
+                    rest = tuple(x for x in lv
+                                 if not any(x is t for t in convs))
+                    for t in convs:
+                        rest = T.subst(rest, {t: 0})
+                    if T.mentions(rest, lambda x: x is E.P):
+                        chk.ob('C15.S', cons_, False,
+                               'the field holds %s: the conversion result '
+                               'is adjusted by something else read from the '
+                               'value' % T.show(arg)[:160], site=site)
+                    else:
+                        chk.undecide('C15.S', cons_, 'the field holds %s, '
+                                     'not the conversion result itself' %
+                                     T.show(arg)[:160])
     chk.floor('C15.T', 1, '.timestamp() receivers', count=nts)
     chk.floor('C15.S', 1, 'struct_time conversions')
     # any other .timestamp() call in the package must be analysed too
